@@ -158,3 +158,45 @@ def pretty_tree(node):
     if d.get('edge') not in (None, '--'):
         extra = "-" + str(d.get('edge'))
     return "(%s%s %s)" % (d.get('label'), extra, " ".join(pretty_tree(c) for c in node.children))
+
+
+def dec_tree(s, mk_node_fn=None):
+    """inverse of enc_tree: rebuild a tree through the tree API (used by fresh-process replays)"""
+    import sys
+    from impl import trees as _trees
+    toks = s.split(" ")
+    pos = [0]
+
+    def fields():
+        lab, w, le, m, e, h, sp, hb, bn, ui = toks[pos[0]:pos[0] + 10]
+        pos[0] += 10
+        d = _trees.make_node_data()
+        d['label'] = dec_s(lab)
+        d['word'] = dec_s(w)
+        d['lemma'] = dec_s(le)
+        d['morph'] = dec_s(m)
+        d['edge'] = dec_s(e)
+        for key, v in (('head', h), ('split', sp), ('head_block', hb)):
+            if v != "n":
+                d[key] = v == "t"
+        if bn != "n":
+            d['block_number'] = int(bn)
+        if ui != "n":
+            d['uid'] = int(ui)
+        return d
+
+    def node():
+        kind = toks[pos[0]]
+        n = int(toks[pos[0] + 1])
+        pos[0] += 2
+        d = fields()
+        if kind == "L":
+            d['num'] = n
+            return _trees.Tree(d)
+        t = _trees.Tree(d)
+        for _ in range(n):
+            c = node()
+            t.children.append(c)
+            c.parent = t
+        return t
+    return node()
